@@ -20,6 +20,7 @@ var simKinds = map[string][]string{
 	"C05": {"resolved-sent-without-send-resolved", "resolved-before-end", "resolved-not-true", "firing-not-true", "resolved-not-reported", "knowledge-missing", "api-groups", "harness-or-api-error"},
 	"C06": {"notification-from-replaced-dispatcher", "foreign-alert", "group-labels", "wrong-receiver", "missing-alert-in-notification", "duplicate-alert-in-notification", "group-key", "api-groups", "harness-or-api-error"},
 	"C13": {"api-alerts", "api-alerts-filter", "api-receivers", "harness-or-api-error"},
+	"C07": {"api-alerts-filter", "api-receivers", "wrong-receiver", "harness-or-api-error"},
 	"C15": {"time-muted-flush-notified", "api-muted-by", "harness-or-api-error"},
 }
 
@@ -165,7 +166,7 @@ func TestC01Sim(t *testing.T) {
 	runSimCheck(t, simCheck{
 		Property: "C01", Name: "C01Sim",
 		Rule:   "whole-system scenarios in virtual time: routing config, alert timelines (fire, heartbeat, explicit/timeout end, re-fire), silences and inhibiting alerts coming and going, time intervals, integration fault plans. Knowledge obligation evaluated at every step instant. Non-trivial: >=1 knowledge obligation evaluated and the case has a suppression that ended, a delivery failure, or a re-created group.",
-		Params: sim.GenParams{Silences: true, Inhibit: true, Intervals: true, Faults: true, Gets: true, GroupLimit: true},
+		Params: sim.GenParams{Flap: true, Silences: true, Inhibit: true, Intervals: true, Faults: true, Gets: true, GroupLimit: true},
 		NonTrivial: func(st sim.Stats, _ *sim.Scenario, _ *sim.Trace) bool {
 			return st.KnowledgeObligations > 0 && (st.SuppressionEnded || st.Failures > 0 || st.GroupsRecreated > 0)
 		},
@@ -311,6 +312,25 @@ func TestC15Sim(t *testing.T) {
 		Params: sim.GenParams{Intervals: true, Gets: true, Silences: true},
 		NonTrivial: func(st sim.Stats, sc *sim.Scenario, _ *sim.Trace) bool {
 			return len(sc.Config.Intervals) > 0 && st.DedupedFlushes > 0 && st.SuppressionChecked > 0
+		},
+	})
+}
+
+// C07Sim: the whole-system scenarios judged for what routing shows through the API: the receivers GET /alerts lists
+// for an alert, the receiver= filter of GET /alerts (an alert routed to several receivers passes when any of them
+// matches) and the receiver a notification is addressed to.
+func TestC07Sim(t *testing.T) {
+	runSimCheck(t, simCheck{
+		Property: "C07", Name: "C07Sim",
+		Rule:   "whole-system scenarios with deep routing trees (continue: true siblings, nested children): at every get-alerts step GET /api/v2/alerts lists for each alert exactly the receivers of the routes the reference routing selects; the same request with a receiver= regular expression (and status flags) returns exactly the alerts of the unfiltered answer that have a matching receiver; every notification is addressed to the receiver of the route it was grouped under. Non-trivial: a GET with a receiver filter was made while the store was not empty.",
+		Params: sim.GenParams{Gets: true, Silences: true, DeepTree: true},
+		NonTrivial: func(st sim.Stats, sc *sim.Scenario, tr *sim.Trace) bool {
+			for i, s := range sc.Steps {
+				if s.Op == "get-alerts" && s.Flags != nil && s.Flags.Receiver != "" && i < len(tr.Samples) && len(tr.Samples[i].Alerts) > 0 {
+					return true
+				}
+			}
+			return false
 		},
 	})
 }
